@@ -222,6 +222,12 @@ impl<T: Socket + ?Sized> Worker<T> {
                             if window.is_full() {
                                 break;
                             }
+                        } else {
+                            // Out of sequence (duplicate or gap): acknowledge the last
+                            // block received in order, so that a sender whose ACK was
+                            // lost can move on (RFC 1350, RFC 7440).
+                            window.empty()?;
+                            self.send_packet(&Packet::Ack(block_number))?;
                         }
                     }
                     Ok(Packet::Error { code, msg }) => {
